@@ -68,10 +68,14 @@ def answerMds (fs : List (String × String)) : String :=
         let cpre := cmpMat pre.get B.get (εrel * scale)
         let preTxt := if exact && !cpre.isExact then "INEXACT-" ++ cpre.show else cpre.show
         -- 2. (V, lam) is a top-d eigensystem of the MODEL's matrix
-        let ce := certify B.get V.get lam.get scale εrel bracket
+        --    tolerance of the eigen-certificate: 2^-30 for the Dense solver; 2^-20 for the Randomized solver, whose single
+        --    Gram–Schmidt pass loses (λ_max/λ_min)·2^-53 of orthogonality — up to 2^-28 on the anisotropic families
+        --    (retained eigenvalue ratios up to 2^25).  The embedding-level checks below stay at 2^-30 for both solvers.
+        let εeig := if get "solver" == some "rand" then pow2 (-20) else εrel
+        let ce := certify B.get V.get lam.get scale εeig bracket
         --    … and, for sizes up to `robustmax`, the extremality certificate that is sound for approximate eigenvectors
         let robustMax := (get "robustmax" >>= String.toNat?).getD 0
-        let robTxt := if N ≤ robustMax && ce.ok then robustExtremal B.get V.get lam.get scale εrel else "skipped"
+        let robTxt := if N ≤ robustMax && ce.ok then robustExtremal B.get V.get lam.get scale εeig else "skipped"
         -- 3. post-processing: sq j ≥ 0, sq j² = lam j, Y = V·diag sq
         --    `s j` is read off the embedding itself (ratio at the largest entry of column j of V); the contract is
         --    `s j ≥ 0 ∧ s j ² = max (lam j) 0` (the PSD factor keeps the positive part of the spectrum);
